@@ -474,7 +474,7 @@ def classify(events, wset, obs, exc) -> List[str]:
     exp = list(run_model(events, wset).out)
     ops = [e[0] for e in events]
     last = next((o for o in reversed(ops) if o not in ("ET",)), "")
-    return ["C05/unclassified:" + ",".join(diff(exp, obs)) + "@" + last]
+    return ["C05/unclassified:" + ",".join(sorted(diff(exp, obs))) + "@" + last]
 
 
 def terminated(events, model: TM) -> Tuple:
